@@ -39,6 +39,63 @@ func canonHeader(list bool, content []byte) []byte {
 	return append([]byte{off + 55 + byte(len(be))}, be...)
 }
 
+// streamWalk decodes b with the Stream API only (Kind/List/Bytes/ListEnd), the way
+// hand-written DecodeRLP methods use it, and returns the rendering of the value.
+func streamWalk(b []byte, limited bool) (out string) {
+	defer func() {
+		if r := recover(); r != nil {
+			out = fmt.Sprintf("panic %v", r)
+		}
+	}()
+	var s *rlp.Stream
+	rd := bytes.NewReader(b)
+	if limited {
+		s = rlp.NewStream(rd, uint64(len(b)))
+	} else {
+		s = rlp.NewStream(rd, 0)
+	}
+	var walk func() (interface{}, error)
+	walk = func() (interface{}, error) {
+		k, _, err := s.Kind()
+		if err != nil {
+			return nil, err
+		}
+		if k == rlp.List {
+			if _, err := s.List(); err != nil {
+				return nil, err
+			}
+			l := []interface{}{}
+			for {
+				v, err := walk()
+				if err == rlp.EOL {
+					break
+				}
+				if err != nil {
+					return nil, err
+				}
+				l = append(l, v)
+			}
+			if err := s.ListEnd(); err != nil {
+				return nil, err
+			}
+			return l, nil
+		}
+		return s.Bytes()
+	}
+	v, err := walk()
+	if err != nil {
+		return "err"
+	}
+	// exactly one value: nothing may be left in the reader (Stream does not read ahead)
+	if rd.Len() > 0 {
+		return "err"
+	}
+	if bs, ok := v.([]byte); ok && bs == nil {
+		v = []byte{}
+	}
+	return "ok " + render(v)
+}
+
 // treeMutate: decode b into an item tree, change one node (leaf string replaced by a
 // boundary string, kind flipped, element added / dropped / duplicated) and re-encode
 // canonically: structurally valid RLP that deviates at the type level.
@@ -238,9 +295,12 @@ func checkInput(c *vh.Ctx, m *vh.Model, class string, b []byte) {
 	} else {
 		c.Count("rejected")
 	}
-	c.Correspond("DecodeBytes(interface{})~decode_exact", hx, o.exact, m.Ask("decode_exact "+hx))
+	mExact := m.Ask("decode_exact " + hx)
+	c.Correspond("DecodeBytes(interface{})~decode_exact", hx, o.exact, mExact)
 	c.Correspond("Split~split", hx, o.split, m.Ask("split "+hx))
 	c.Correspond("CountValues~count_values", hx, o.count, m.Ask("count "+hx))
+	c.Correspond("Stream(Kind/List/Bytes/ListEnd, limited)~decode_exact", hx, streamWalk(b, true), mExact)
+	c.Correspond("Stream(Kind/List/Bytes/ListEnd, unlimited)~decode_exact", hx, streamWalk(b, false), mExact)
 	if strings.HasPrefix(o.split, "ok ") {
 		// direct oracle for Split: header(kind, content) ++ content ++ rest is the input
 		k, content, rest, _ := rlp.Split(b)
@@ -344,6 +404,11 @@ func main() {
 		hx := vh.Hex(enc)
 		// model encodes the same value to the same bytes
 		c.Correspond("EncodeToBytes~encode", render(v), hx, m.Ask("encode "+render(v)))
+		if _, rd, err := rlp.EncodeToReader(v); err == nil {
+			rb := new(bytes.Buffer)
+			rb.ReadFrom(rd)
+			c.Correspond("EncodeToReader~encode", render(v), vh.Hex(rb.Bytes()), hx)
+		}
 		// direct oracle: decode(encode v) == v
 		var back interface{}
 		if err := rlp.DecodeBytes(enc, &back); err != nil || render(back) != render(normalize(v)) {
